@@ -1127,6 +1127,34 @@ def base_local(body, operand, depth=8):
     return p[0] if p is not None else None
 
 
+def base_through(body, operand, depth=10):
+    """like base_local, but also looks through transparent calls (Deref::deref_mut of a Vec before a slice method …)"""
+    p = op_place(operand)
+    while p is not None and depth > 0:
+        depth -= 1
+        l = p[0]
+        if body.locals[l].get("user") or (1 <= l <= body.argc):
+            return l
+        dl = body.defs().get(l, [])
+        if len(dl) != 1:
+            return l
+        ent = dl[0]
+        if ent[0] == "stmt":
+            r = ent[3]["r"]
+            if r["k"] in ("ref", "rawptr"):
+                p = r["p"]
+            elif r["k"] in ("use", "cast") and op_place(r["o"][0]) is not None:
+                p = op_place(r["o"][0])
+            else:
+                return l
+        elif ent[0] == "call" and is_transparent(ent[2]) and ent[2].args:
+            p = op_place(ent[2].args[0])
+        else:
+            return l
+    return p[0] if p is not None else None
+
+
+Body.base_through = lambda self, operand: base_through(self, operand)
 Body.base_local = lambda self, operand: base_local(self, operand)
 Body.edges_matching = lambda self, patterns: edges_matching(self, patterns)
 
